@@ -24,6 +24,8 @@ EXTENDS Integers, Sequences, FiniteSets, TLC
 
 CONSTANTS G,            \* table nodes at Mach 0..G
           PointLists,   \* the BC point lists tried: sequences of <<bc, doubled Mach position>>
+          Stride,       \* spacing of the table's Mach nodes (node k-1 at Mach Stride * (k-1)): with Stride = 2 several BC
+                        \* points fit strictly between two neighbouring table rows
           AllocRule, MaxBuilds
 
 Abs(x) == IF x < 0 THEN -x ELSE x
@@ -48,7 +50,7 @@ BCat(pts, x) ==
            hi == MinP({p \in P : p > x})
            b0 == BcOf(pts, lo) b1 == BcOf(pts, hi)
        IN Norm(<<b0 * (hi - lo) + (b1 - b0) * (x - lo), hi - lo>>)
-Law(pts) == [k \in 1..(G + 1) |-> BCat(pts, 2 * (k - 1))]          \* BC at node k-1
+Law(pts) == [k \in 1..(G + 1) |-> BCat(pts, 2 * Stride * (k - 1))]          \* BC at node k-1
 
 \* ---- heap of data points and models ----
 VARIABLES heap,      \* data-point id -> multiplier
